@@ -77,7 +77,31 @@ def _run_pandas(case, T, obj):
             # one regex Column coercing two columns with the same cells: each is coerced, and reported, on its own
             schema = pa.DataFrameSchema({"^" + str(obj.name): pa.Column(T, coerce=True, nullable=True, regex=True)})
             twin = str(obj.name) + "2"
-            out = schema.validate(pd.DataFrame({obj.name: obj, twin: obj.copy()}))
+            if case.get("regex_lazy"):
+                # lazily, the report has to name the uncoercible cells of *both* matched columns
+                try:
+                    out = schema.validate(pd.DataFrame({obj.name: obj, twin: obj.copy()}), lazy=True)
+                except errors.SchemaErrors as e:
+                    fc = e.failure_cases
+                    fc = fc[fc["check"].astype(str).str.startswith("coerce_dtype")]
+                    if fc.empty:
+                        return {"kind": "other", "exc_type": "SchemaErrors-without-coercion-entries", "msg": str(e)[:200]}
+                    # (the entries carry the column schema's pattern as "column", so the two matched columns cannot be told
+                    # apart by name: every uncoercible cell has to appear twice)
+                    from collections import Counter
+
+                    cnt = Counter(map(repr, _fc_pairs(fc)))
+                    if any(v % 2 for v in cnt.values()):  # (a multiple of two: the same label/value pair may repeat in the data)
+                        return {"kind": "other", "exc_type": "regex-matched-twin-missing-from-lazy-report",
+                                "msg": f"entries per uncoercible cell: {sorted(set(cnt.values()))}"}
+                    left, pairs = Counter({k: v // 2 for k, v in cnt.items()}), []
+                    for pr in _fc_pairs(fc):
+                        if left[repr(pr)] > 0:
+                            left[repr(pr)] -= 1
+                            pairs.append(pr)
+                    return {"kind": "parser", "pairs": pairs}
+            else:
+                out = schema.validate(pd.DataFrame({obj.name: obj, twin: obj.copy()}))
             if not isinstance(out, pd.DataFrame) or list(out.columns) != [obj.name, twin]:
                 return {"kind": "other", "exc_type": "bad-return", "msg": repr(type(out))}
             if not out[obj.name].astype(object).map(repr).tolist() == out[twin].astype(object).map(repr).tolist() \
@@ -401,7 +425,10 @@ def strat_pandas():
         index = None
         if container != "index" and draw(st.integers(0, 2)) == 0:
             index = draw(st.lists(st.sampled_from([10, 20, -1, "p", "q", 0, 2.5]), min_size=len(cells), max_size=len(cells)))
-        return {"dtype": spec, "container": container, "cells": cells, "phys": phys, "index": index, "mode": mode}
+        out = {"dtype": spec, "container": container, "cells": cells, "phys": phys, "index": index, "mode": mode}
+        if container == "regex_column" and index is None and draw(st.booleans()):
+            out["regex_lazy"] = True  # (default row labels: every label/value pair of the report is distinct)
+        return out
 
     return case()
 
@@ -755,7 +782,9 @@ def _k_td_string(family, case, disc):
 @known.finding("C10/nullable-int-fractional-float-unreported")
 def _k_extint_fraction(family, case, disc):
     import math
-    return (family == "pandas" and disc.kind.startswith("unconvertible-missing-from-failure-cases:extint:")
+    # (lazily the same unattributed error arrives as one entry without label and value)
+    return (family == "pandas" and (disc.kind.startswith("unconvertible-missing-from-failure-cases:extint:")
+                                    or (disc.kind == "null-listed-as-failure-case:extint" and case.get("regex_lazy")))
             and case["dtype"]["k"] == "extint"
             and any(isinstance(V.norm(v), float) and math.isfinite(v) and v != int(v) for v in _elems(case)))
 
